@@ -14,7 +14,7 @@ from common import Ctx, Failure, main_wrapper
 
 PID = "C11"
 RULE = ("Hypothesis-generated histories of 2..30 steps in ONE process per build (thread-safe and non-thread-safe, ASan; "
-        "plain builds for heap growth): write_config(structured config over every option) / empty / delete / garbage / "
+        "plain builds, i.e. the real allocator with immediate address reuse, for the same comparison and for heap growth): write_config(structured config over every option) / empty / delete / garbage / "
         "directory-in-place / syntax-error-plus-options, and call(request). Oracle: differential -- what call k adds to "
         "every sink equals what the same (config, request) adds as the FIRST call of a fresh process (pid normalised); "
         "ASan silent; heap after a repeated (config, request) pair equal. non-trivial = a later configuration omits or "
@@ -175,7 +175,10 @@ def run_fresh(d, cfg, s):
 
 
 def evaluate(env, c):
-    for variant in [v for v in env.builds if v.endswith("asan")]:
+    # the memory-checked builds see double frees and stale pointers; the plain builds run with the real allocator, where a freed
+    # string's address is handed out again at once (ASan's quarantine never does that) -- state keyed on such an address shows there
+    ncfg = sum(1 for s in c["steps"] if s["op"] == "cfg")
+    for variant in [v for v in env.builds if v.endswith("asan") or ncfg >= 2]:
         d = env.driver(variant)
         res, calls = run_history(d, c)
         reports = d.sanitizer_reports()
